@@ -11,11 +11,12 @@ namespace Rivaas.Bind.Spec
 open Rivaas.Bind
 
 /-- the decoded struct (as the field holds it) when the shortcut applies to field `(h, t)` -/
-def shortcutAt (P : Params) (tag : Tag) (s : Src) (h : FieldHdr) (t : Ty) : Option Val :=
+def shortcutAt (P : Params) (cfg : Cfg) (tag : Tag) (s : Src) (h : FieldHdr) (t : Ty) : Option Val :=
   match structFields? t with
   | none => none
   | some _ =>
-    if !h.exported || h.anon then none
+    -- a nested struct field of the top level lies at depth 1: beyond a depth limit of 0 nothing is decoded
+    if !h.exported || h.anon || cfg.maxDepth < 1 then none
     else match tagNames (h.tag tag) h.name (tag == .form) with
       | none => none
       | some (p, _) =>
@@ -32,11 +33,11 @@ def placeVals : List Val → List (Option Val) → List Val
   | v :: vs, _ :: sc => v :: placeVals vs sc
   | vs, _ => vs
 
-def shortcuts (P : Params) (tag : Tag) (fs : List Fld) (s : Src) : List (Option Val) :=
-  fs.map fun f => shortcutAt P tag s f.1 f.2
+def shortcuts (P : Params) (cfg : Cfg) (tag : Tag) (fs : List Fld) (s : Src) : List (Option Val) :=
+  fs.map fun f => shortcutAt P cfg tag s f.1 f.2
 
 def specOKJ (P : Params) (cfg : Cfg) (tag : Tag) (fs : List Fld) (init : Val) (s : Src) (o : Obs) : Bool :=
-  let sc := shortcuts P tag fs s
+  let sc := shortcuts P cfg tag fs s
   if sc.all Option.isNone then specOK P cfg tag fs init s o
   else match init with
     | .struct ivs => specOK P cfg tag (hideFs fs sc) (.struct (placeVals ivs sc)) s o
